@@ -64,7 +64,7 @@ CHECKS = {
         'text': 'Every index, slice, get_u8/u32/u64, split_to, advance, expect, arithmetic operation and recursion/loop measure in the byte-reachable synchronous code is a Verus obligation under no precondition but the representation invariant; '
                 'allocation is bounded through a ghost counter on BytesMut::reserve; parsers Verus cannot read are covered by Kani (complete or bounded as labelled).',
         'design_ref': 'DESIGN.md 4 (C03)',
-        'note': 'Not covered: panics in spawned tasks, other connections keep working, the PUB/XPUB subscription parser. Assumed specs of bytes carry the real panic conditions.',
+        'note': 'Covers decode, greeting/command/identity/socket-type parsers, the handshake decision code and the PUB/XPUB subscription-message parsers. Not covered: panics in other spawned-task code, "other connections keep working". Assumed specs of bytes carry the real panic conditions.',
         'technique': 'Verus panic-freedom / termination / allocation-bound obligations on extracted code; Kani for three parsers',
     },
 }
@@ -72,7 +72,7 @@ CHECKS = {
 NOT_APPLICABLE = {
     'C05': 'quantifies over arrival schedules and concurrent connect/disconnect; the mechanism (FairQueue::poll_next releasing a parking_lot lock around a checked-out stream, wakers firing on other threads) is outside what Verus (no Pin/Context/Waker/lock-guard specs, &mut model assumes no interference) or Kani (no threads, crashes on parking_lot, HashMap intractable) can express; the per-connection part is discharged under C02',
     'C06': 'liveness / fairness over adversarial schedules; wake-ups go through &Waker (no state a per-call contract can see)',
-    'C11': 'the filter lives behind Pin<Box<FramedWrite>>::as_mut() and an scc cursor, the bookkeeping behind scc entry mutation and iter().position(closure): Verus parses none of these and Kani cannot run scc',
+    'C11': 'the prefix filter lives in PubSocket::send behind an scc cursor (OccupiedEntry with user Deref/DerefMut, next_async) and Pin<Box<FramedWrite>>::as_mut().try_send: Verus parses none of these and Kani cannot run scc, so "delivered iff a subscription is a prefix" cannot be decided. (The bookkeeping half - SUBSCRIBE appends, CANCEL removes the first equal topic, anything else changes nothing, only the sender\'s entry changes - IS proved for PUB and XPUB in unit pubsub and reported under C03.)',
     'C12': 'about back-pressure schedules and the Sink polling protocol on Pin<&mut Self>; no per-call contract expresses it',
     'C13': 'about races between subscribe and background accepts; code mutates through a lock guard DerefMut and iterator adapters outside both tools',
     'C15': 'futures::select! expansion and scheduling',
